@@ -232,6 +232,7 @@ fn rescale<G: Grp>(p: &G, lam: &G::Base) -> G {
 fn c16_group<G: Grp + OSSWUMap>(r: &mut Rng, thorough: bool, sessions: &mut Vec<Vec<Value>>)
 where
     G::Base: J,
+    G::Affine: CurveAffine<Projective = G>,
 {
     let g = G::NAME;
     let per = if g == "G1" { 30 } else { 20 };
@@ -249,9 +250,18 @@ where
             let lam = G::Base::from_j(&elem(r, g));
             ops.push(json!({"op": "iso", "g": g, "p": proj_to_j(&rescale(&p, &lam)), "cls": "rescaled"}));
         }
+        if i % 3 == 1 {
+            // the normalized representative (X/Z^2, Y/Z^3, 1) of the same point
+            let a = p.into_affine();
+            ops.push(json!({"op": "iso", "g": g, "p": proj_to_j(&a.into_projective()), "cls": "normalized-Z=1"}));
+        }
         if i % 5 == 0 {
             let q: G = swu_point::<G>(r);
             ops.push(json!({"op": "iso_hom", "g": g, "p": proj_to_j(&p), "q": proj_to_j(&q), "cls": "homomorphism"}));
+            if i % 10 == 0 {
+                let qn = q.into_affine().into_projective();
+                ops.push(json!({"op": "iso_hom", "g": g, "p": proj_to_j(&p), "q": proj_to_j(&qn), "cls": "homomorphism-Z=1"}));
+            }
         }
         chunk(sessions, &mut ops, per);
     }
